@@ -37,7 +37,8 @@ func init() {
 	fw.Register(&fw.Prop{
 		ID:    "C14",
 		Level: "fault_enumeration",
-		Rule: "the scan cases of C06, each ended in one of the ways {exhausted, Close after j Next calls, context cancelled " +
+		Rule: "enumerated: a 4-row scan over 2 regions (one row per response, forward and reversed) ended in each of the 7 ways at every " +
+			"point (j = 0..5 Next calls, r = 1..6 scan requests); then the scan cases of C06, each ended in one of the ways {exhausted, Close after j Next calls, context cancelled " +
 			"between fetches after j calls, context cancelled while the r-th scan request is unanswered, non-retryable " +
 			"RPC error on the r-th scan request, retryable error on the r-th request, server says more_results=false at " +
 			"the r-th response}, with and without scanner renewal; (j, r) drawn over the whole length of the scan. Judged: " +
@@ -54,13 +55,51 @@ func init() {
 		Floors: func(tier string) map[string]int64 {
 			return map[string]int64{"scans": 500, "end_exhaust": 30, "end_close-after": 50, "end_cancel-between": 50, "end_cancel-during": 30,
 				"end_rpc-error": 30, "end_rpc-retryable": 30, "end_early-no-more": 30, "scanners_opened": 800, "close_requests_seen": 100,
-				"errors_reported": 50}
+				"errors_reported": 50, "enumerated_ending_points": 60}
 		},
 		Run: runC14,
 	})
 }
 
 func runC14(c *fw.Ctx) {
+	// enumerated part: a fixed small scan (4 rows x 2 cells over 2 regions, one
+	// row per response) ended in every way at every point j (Next calls) / r
+	// (scan request hit)
+	{
+		k := 0
+		for _, end := range []string{"exhaust", "close-after", "cancel-between", "cancel-during", "rpc-error", "rpc-retryable", "early-no-more"} {
+			for _, rev := range []bool{false, true} {
+				for j := 0; j <= 5; j++ {
+					for rr := 1; rr <= 6; rr++ {
+						if (end == "exhaust" && (j > 0 || rr > 1)) || ((end == "close-after" || end == "cancel-between") && rr > 1) ||
+							((end == "cancel-during" || end == "rpc-error" || end == "rpc-retryable" || end == "early-no-more") && j > 0) {
+							continue
+						}
+						k++
+						if k%c.NBatches != c.Batch {
+							continue
+						}
+						sc := scanCase{Seed: int64(k), Rows: []string{"a", "b", "n", "p"}, CellsPer: []int{2, 2, 2, 2}, Bounds: []string{"m"},
+							Start: "", Stop: "", Reversed: rev, NumRows: 1, Servers: 2}
+						if rev {
+							sc.Start = "z"
+						}
+						cs := c14Case{Scan: sc, End: end, J: j, R: rr, Renew: k%3 == 0}
+						if cs.Renew {
+							cs.Scan.Renew = 15 * time.Millisecond
+						}
+						id := fmt.Sprintf("enum-%d", k)
+						c.Begin(id, cs)
+						c.Eval(fmt.Sprintf("enum|%s|%v|%d|%d", end, rev, j, rr), true)
+						c.Count("scans", 1)
+						c.Count("end_"+end, 1)
+						c.Count("enumerated_ending_points", 1)
+						c14Run(c, id, cs, sc.model(), fmt.Sprintf("c14e-%d-%d", c.Batch, k))
+					}
+				}
+			}
+		}
+	}
 	r := c.Rand("c14")
 	n := c.Pick(800, 24000) / c.NBatches
 	ends := []string{"exhaust", "close-after", "close-after", "cancel-between", "cancel-between", "cancel-during", "rpc-error", "rpc-error", "rpc-retryable", "early-no-more"}
